@@ -281,6 +281,7 @@ class SQLiteArrayConverter(dbapiprovider.ArrayConverter):
         return TrackedArray(obj, converter.attr, items)
 
     def val2dbval(converter, val, obj=None):
+        if val is None: return None
         return dumps(val)
 
 class LocalExceptions(localbase):
